@@ -41,7 +41,19 @@ pub fn diag_probe_child() {
         eprintln!("KIND {:?}/LE", kind);
         let (_r, _h) = AnyReader::new(En::LE, kind, &RdBackend::MemInf, &[0u8; 16]);
     }
+    for n in 1..=64usize {
+        eprintln!("KIND N{}", n);
+        dsi_bitstream::traits::check_tables(n);
+    }
     eprintln!("KIND END");
+}
+
+/// (look-ahead width, table) pairs for which `check_tables(width)` printed a DANGER line.
+static DIAG_N: OnceLock<BTreeSet<(usize, &'static str)>> = OnceLock::new();
+
+pub fn diagnosed_width() -> &'static BTreeSet<(usize, &'static str)> {
+    let _ = diagnosed();
+    DIAG_N.get().expect("harness error: width diagnostics not collected")
 }
 
 pub fn diagnosed() -> &'static BTreeSet<(RdKind, &'static str)> {
@@ -56,11 +68,14 @@ pub fn diagnosed() -> &'static BTreeSet<(RdKind, &'static str)> {
             .expect("harness error: cannot run diag-probe");
         let txt = String::from_utf8_lossy(&out.stderr).to_string();
         let mut cur: Option<RdKind> = None;
+        let mut cur_n: Option<usize> = None;
         let mut set = BTreeSet::new();
+        let mut set_n: BTreeSet<(usize, &'static str)> = BTreeSet::new();
         let mut saw_end = false;
         for l in txt.lines() {
             if let Some(k) = l.strip_prefix("KIND ") {
                 let k = k.split('/').next().unwrap_or("");
+                cur_n = k.strip_prefix('N').and_then(|x| x.parse().ok());
                 cur = match k {
                     "B8" => Some(RdKind::B8),
                     "B16" => Some(RdKind::B16),
@@ -74,6 +89,17 @@ pub fn diagnosed() -> &'static BTreeSet<(RdKind, &'static str)> {
                     _ => None,
                 };
             } else if l.contains("DANGER") {
+                if let Some(n) = cur_n {
+                    if l.contains('γ') {
+                        set_n.insert((n, "gamma"));
+                    }
+                    if l.contains('δ') {
+                        set_n.insert((n, "delta"));
+                    }
+                    if l.contains('ζ') {
+                        set_n.insert((n, "zeta3"));
+                    }
+                }
                 if let Some(k) = cur {
                     if l.contains('γ') {
                         set.insert((k, "gamma"));
@@ -90,6 +116,7 @@ pub fn diagnosed() -> &'static BTreeSet<(RdKind, &'static str)> {
         if !saw_end {
             panic!("harness error: diag-probe child did not complete");
         }
+        let _ = DIAG_N.set(set_n);
         set
     })
 }
@@ -117,6 +144,10 @@ pub enum Work5 {
     Valid { offset: Vec<(u64, usize)>, items: Vec<(Code, u64)> },
     /// writer-side: offset then items, every write variant into twin writers
     Writers { word: Wd, offset: Vec<(u64, usize)>, items: Vec<(Code, u64)> },
+    /// a user-defined reader that can look ahead `n` bits (1..=64) and, as the documentation
+    /// asks of implementors, calls `check_tables(n)` when it is built: every table for which
+    /// that call printed no diagnostic must decode like the bit-by-bit reader
+    Narrow { n: usize, image: Vec<u8>, starts: Vec<usize> },
 }
 
 #[derive(Clone, Debug, Serialize, Deserialize)]
@@ -127,6 +158,136 @@ pub struct S05 {
     pub work: Work5,
     /// for Image: explicit steps; for Valid: prefix ops are interleaved by index
     pub steps: Vec<Step5>,
+}
+
+/// A reader that honestly has only `n` bits of look-ahead: a peek of more bits delivers the
+/// first `n` and zeros after them (what a too-small buffer does). Everything else is forwarded
+/// to a real buffered reader over u64 words.
+pub struct NarrowPeek<R> {
+    pub inner: R,
+    pub n: usize,
+    pub le: bool,
+}
+
+impl<E: Endianness, R: BitRead<E>> BitRead<E> for NarrowPeek<R>
+where
+    R::PeekWord: common_traits::CastableInto<u64>,
+{
+    type Error = R::Error;
+    type PeekWord = u64;
+    fn read_bits(&mut self, k: usize) -> Result<u64, Self::Error> {
+        self.inner.read_bits(k)
+    }
+    fn peek_bits(&mut self, k: usize) -> Result<u64, Self::Error> {
+        use common_traits::CastableInto;
+        if k <= self.n {
+            self.inner.peek_bits(k).map(|x| x.cast())
+        } else {
+            let v: u64 = self.inner.peek_bits(self.n)?.cast();
+            Ok(if self.le { v } else { v << (k - self.n) })
+        }
+    }
+    fn skip_bits(&mut self, k: usize) -> Result<(), Self::Error> {
+        self.inner.skip_bits(k)
+    }
+    fn skip_bits_after_peek(&mut self, k: usize) {
+        self.inner.skip_bits_after_peek(k)
+    }
+    fn read_unary(&mut self) -> Result<u64, Self::Error> {
+        self.inner.read_unary()
+    }
+}
+
+/// The `*_param` entry points only (blanket-implemented for every `BitRead`; the parameterless
+/// methods exist per concrete reader type). Returns None for variants that are not `*_param`.
+fn read_param_on<E: Endianness, R>(r: &mut R, code: Code, tab: u8) -> Option<Result<u64, R::Error>>
+where
+    R: BitRead<E> + GammaReadParam<E> + DeltaReadParam<E> + ZetaReadParam<E>,
+{
+    Some(match (code, tab) {
+        (Code::Gamma, 0) => r.read_gamma_param::<false>(),
+        (Code::Gamma, 1) => r.read_gamma_param::<true>(),
+        (Code::Delta, 0) => r.read_delta_param::<false, false>(),
+        (Code::Delta, 1) => r.read_delta_param::<false, true>(),
+        (Code::Delta, 2) => r.read_delta_param::<true, false>(),
+        (Code::Delta, 3) => r.read_delta_param::<true, true>(),
+        (Code::Zeta(3), 0) => r.read_zeta3_param::<false>(),
+        (Code::Zeta(3), 1) => r.read_zeta3_param::<true>(),
+        _ => return None,
+    })
+}
+
+fn narrow_workload(s: &S05, n: usize, image: &[u8], starts: &[usize], ctx: &mut Ctx) {
+    let model = BitModel::from_bytes(s.e, image);
+    let words = crate::backends::bytes_to_words::<u64>(image);
+    let diag = diagnosed_width();
+    macro_rules! run {
+        ($E:ty, $le:expr) => {{
+            let base0 = BufBitReader::<$E, _>::new(MemWordReader::new(words.clone()));
+            for &p in starts {
+                for code in TCODES {
+                    if valid_code_at(&model, s.e, p, code, model.len() + 64).is_none() {
+                        continue;
+                    }
+                    let mut tags = vec![format!("e={:?}", s.e), format!("lookahead={}", n), format!("op=read_{}", code.name()), "reader=user_defined".to_string()];
+                    // reference: tables off
+                    let notab = (0..code.n_rtabs()).find(|t| code.rtables(*t).is_empty()).unwrap_or(0);
+                    let mut r0 = base0.clone();
+                    if r0.skip_bits(p).is_err() {
+                        continue;
+                    }
+                    let exp = match guard(|| read_param_on::<$E, _>(&mut r0, code, notab).map(|r| r.map_err(|e| e.to_string()))) {
+                        Ok(Some(Ok(v))) => (v, r0.bit_pos().unwrap_or(u64::MAX)),
+                        _ => continue,
+                    };
+                    for tab in 0..code.n_rtabs() {
+                        let tabs = code.rtables(tab);
+                        if tabs.is_empty() {
+                            continue;
+                        }
+                        if tabs.iter().any(|t| diag.contains(&(n, *t))) {
+                            ctx.probe("c05.narrow_variant_excluded_as_diagnosed");
+                            continue;
+                        }
+                        tags.truncate(4);
+                        tags.push(format!("tables={}", tabs.join("+")));
+                        ctx.step(tags.clone());
+                        ctx.ops += 1;
+                        let mut inner = base0.clone();
+                        let _ = inner.skip_bits(p);
+                        let mut nr = NarrowPeek { inner, n, le: $le };
+                        let got = match guard(|| read_param_on::<$E, _>(&mut nr, code, tab).map(|r| r.map_err(|e| e.to_string()))) {
+                            Ok(Some(r)) => Ok(r),
+                            Ok(None) => continue, // parameterless variants exist per concrete reader type only
+                            Err(p) => Err(p),
+                        };
+                        let pos = nr.inner.bit_pos().unwrap_or(u64::MAX);
+                        ctx.ev(match &got {
+                            Ok(Ok(v)) => *v,
+                            _ => u64::MAX,
+                        });
+                        ctx.ev(pos);
+                        ctx.sig(&[55, s.e as u64, n as u64, crate::p03::code_class(code), tab as u64]);
+                        ctx.probe("c05.narrow_lookahead_table_read");
+                        ctx.progressed = true;
+                        if got != Ok(Ok(exp.0)) || pos != exp.1 {
+                            return ctx.fail(
+                                "C05.read_differs",
+                                format!(
+                                    "a reader with {} bits of look-ahead (check_tables({}) printed no diagnostic for {:?}) reading {:?} at bit {} through those tables gives {:?} ending at bit {}; without tables the value is {} ending at bit {}",
+                                    n, n, tabs, code, p, got, pos, exp.0, exp.1
+                                ),
+                            );
+                        }
+                    }
+                }
+            }
+        }};
+    }
+    match s.e {
+        En::BE => run!(BE, false),
+        En::LE => run!(LE, true),
+    }
 }
 
 pub struct C05;
@@ -446,6 +607,38 @@ impl Family for C05 {
         let kind = RdKind::ALL[((index / 2) % 5) as usize];
         let strict = (index / 10) % 2 == 1;
         let which = (index / 20) % 8;
+        if index % 97 == 41 {
+            // look-ahead widths 1..=64, every width in turn; an image made of valid codewords
+            let n = ((index / 97) % 64) as usize + 1;
+            let e = if rng.chance(1, 2) { En::BE } else { En::LE };
+            let mut m = BitModel::new();
+            let mut starts = Vec::new();
+            m.push_bits(e, rng.next(), rng.usize_range(0, 70).min(64));
+            for _ in 0..rng.usize_range(2, 10) {
+                starts.push(m.len());
+                let c = TCODES[rng.below(3) as usize];
+                let v = boundary_value(rng, c);
+                // written with the real writer (tables off) into a scratch stream
+                let (mut w, h) = AnyWriter::new(e, Wd::U64, &WrBackend::Vec);
+                let _ = w.write_code(c, 0, v);
+                let _ = w.write_bits(1, 1);
+                let _ = w.flush();
+                let bytes = h.delivered_bytes();
+                let cm = BitModel::from_bytes(e, &bytes);
+                let end = cm.bits.iter().rposition(|b| *b != 0).unwrap_or(0);
+                m.bits.extend_from_slice(&cm.bits[..end]);
+                w.forget();
+            }
+            m.push_bits(e, rng.next(), 64);
+            m.pad_to_multiple(64);
+            return S05 {
+                e,
+                kind: RdKind::B64,
+                strict: false,
+                work: Work5::Narrow { n, image: m.to_bytes(e), starts },
+                steps: vec![],
+            };
+        }
         let off_bits = rng.usize_range(0, 2 * kind.word_bits() + 1);
         let mut offset = Vec::new();
         let mut left = off_bits;
@@ -579,6 +772,7 @@ impl Family for C05 {
     fn exec(s: &S05, ctx: &mut Ctx) {
         let backend = if s.strict { RdBackend::MemStrict } else { RdBackend::MemInf };
         match &s.work {
+            Work5::Narrow { n, image, starts } => narrow_workload(s, *n, image, starts, ctx),
             Work5::Writers { word, offset, items } => write_variants(s, *word, offset, items, ctx),
             Work5::Image { image, .. } => {
                 let mut sim = RSim::new("C05", s.e, s.kind, &backend, image);
@@ -744,6 +938,13 @@ impl Family for C05 {
                     }
                 }
             }
+            Work5::Narrow { n, image, starts } => {
+                for st in shrink_list(starts) {
+                    if !st.is_empty() {
+                        out.push(S05 { work: Work5::Narrow { n: *n, image: image.clone(), starts: st }, ..s.clone() });
+                    }
+                }
+            }
             Work5::Valid { offset, items } => {
                 // drop items from the end (keeps steps consistent)
                 if items.len() > 1 {
@@ -809,7 +1010,7 @@ impl Family for C05 {
     }
 
     fn rule() -> &'static str {
-        "one case = (endianness, reader {buffered u8..u64, unbuffered}, backend strict or zero-extended, workload). Workloads: (a) arbitrary image (5 patterns, a systematically cycling 12-bit look-ahead pattern planted at a random bit position, guard bit at the end) with a history mixing prefix reads/peeks/skips and differential reads; (b) valid gamma/delta/zeta3 stream of values around the table boundaries (WRITE_MAX-1..+1, codeword length = index width -1/0/+1, random) cut right after the word holding the last codeword; (c) writer side: every write variant into twin writers at the same offset, and the length functions with tables on/off. A differential read clones the reader once per method variant (tables off, each table-option combination, parameterless default) and requires identical (value | error, bit position afterwards, next 13 bits); variants whose table was diagnosed at construction of that reader kind (measured from the library's real stderr output) are excluded. distinct_nontrivial = distinct (endianness, reader, strict?, code, measured buffer fill before the read[, codeword length]) signatures; coverage_sets count the distinct decode-table indices and encode-table entries exercised"
+        "one case = (endianness, reader {buffered u8..u64, unbuffered}, backend strict or zero-extended, workload). Workloads: (a) arbitrary image (5 patterns, a systematically cycling 12-bit look-ahead pattern planted at a random bit position, guard bit at the end) with a history mixing prefix reads/peeks/skips and differential reads; (b) valid gamma/delta/zeta3 stream of values around the table boundaries (WRITE_MAX-1..+1, codeword length = index width -1/0/+1, random) cut right after the word holding the last codeword; (c) writer side: every write variant into twin writers at the same offset, and the length functions with tables on/off. A differential read clones the reader once per method variant (tables off, each table-option combination, parameterless default) and requires identical (value | error, bit position afterwards, next 13 bits); variants whose table was diagnosed at construction of that reader kind (measured from the library's real stderr output) are excluded. distinct_nontrivial = distinct (endianness, reader, strict?, code, measured buffer fill before the read[, codeword length]) signatures; coverage_sets count the distinct decode-table indices and encode-table entries exercised (d) one run in 97: a user-defined reader with n bits of look-ahead, n = 1..=64 in turn (a pass-through over a real buffered reader whose peeks of more than n bits deliver n bits and zeros), which calls check_tables(n) as the documentation asks of implementors: every *_param table variant for which that call printed no diagnostic must give the value and the final position of the table-less read, on a stream of boundary-valued gamma / delta / zeta3 codewords."
     }
 
     fn components() -> (Vec<&'static str>, Vec<&'static str>) {
@@ -821,6 +1022,8 @@ impl Family for C05 {
 
     fn required_probes(_t: Tier) -> Vec<&'static str> {
         vec![
+            "c05.narrow_lookahead_table_read",
+            "c05.narrow_variant_excluded_as_diagnosed",
             "c05.peek_fails_at_strict_tail",
             "c05.table_read_fill_above_word",
             "c05.table_read_empty_buffer",
